@@ -155,7 +155,34 @@ func trustedResourceURLFormat(format string, args map[string]string) (TrustedRes
 		// segments or URL components.
 		return safehtmlutil.QueryEscapeURL(argVal)
 	})
+	if err == nil {
+		// Characters contributed by several arguments, or by an argument and the format, must
+		// not combine into a ".." dot-segment either. Compare with the result of substituting
+		// placeholders that cannot be part of a dot-segment.
+		masked := trustedResourceURLFormatMarkerPattern.ReplaceAllStringFunc(format, func(match string) string {
+			argName := match[len("%{") : len(match)-len("}")]
+			return strings.Repeat("x", len(safehtmlutil.QueryEscapeURL(args[argName])))
+		})
+		if countDoubleDotSegments(ret) != countDoubleDotSegments(masked) {
+			err = fmt.Errorf(`arguments must not form a ".." path segment in %q`, ret)
+		}
+	}
 	return TrustedResourceURL{ret}, err
+}
+
+// countDoubleDotSegments returns the number of ".." dot-segments, in percent-encoded
+// or unencoded form, in the path of url.
+func countDoubleDotSegments(url string) int {
+	if i := strings.IndexAny(url, "?#"); i != -1 {
+		url = url[:i]
+	}
+	n := 0
+	for _, segment := range strings.Split(url, "/") {
+		if strings.Replace(strings.ToLower(segment), "%2e", ".", -1) == ".." {
+			n++
+		}
+	}
+	return n
 }
 
 // trustedResourceURLFormatMarkerPattern matches markers in TrustedResourceURLFormat
@@ -191,5 +218,9 @@ func TrustedResourceURLAppend(t TrustedResourceURL, s string) (TrustedResourceUR
 	if !safehtmlutil.IsSafeTrustedResourceURLPrefix(t.str) {
 		return TrustedResourceURL{}, fmt.Errorf("cannot append to TrustedResourceURL %q because it has an unsafe prefix", t)
 	}
-	return TrustedResourceURL{t.str + safehtmlutil.QueryEscapeURL(s)}, nil
+	escaped := safehtmlutil.QueryEscapeURL(s)
+	if countDoubleDotSegments(t.str+escaped) != countDoubleDotSegments(t.str+strings.Repeat("x", len(escaped))) {
+		return TrustedResourceURL{}, fmt.Errorf(`cannot append %q to TrustedResourceURL %q because it would form a ".." path segment`, s, t)
+	}
+	return TrustedResourceURL{t.str + escaped}, nil
 }
